@@ -169,10 +169,16 @@ def inputs(w):
         from vf.shims import SymB64
         forms = {'bytes': raw, 'hex': raw.hex() if hasattr(raw, 'hex') else raw, 'base64': SymB64(raw, False, False) if type(raw) is not bytes else base64.b64encode(raw).decode()}
     else:
-        raw = b'\xb5\xee\x9c\x72' + raw
+        raw = b'\xb5\xee\x9c\x72' + b'\xfb\xff\xbf' + raw        # the standard alphabet's '+' and '/' occur in the base64 text
         forms = {'bytes': raw, 'hex': raw.hex(), 'HEX': raw.hex().upper(), 'base64': base64.b64encode(raw).decode()}
     for nm, f in forms.items():
         k, b = call(MD.Boc, f)
+        w.claim(f'{nm}: accepted', k == 'ok')
+        if k == 'ok':
+            w.claim(f'{nm}: same data', b.data == raw)
+    # the explicit constructors for the two text forms
+    for nm, ctor, key in (('Boc.from_hex', MD.Boc.from_hex, 'hex'), ('Boc.from_base64', MD.Boc.from_base64, 'base64')):
+        k, b = call(ctor, forms[key])
         w.claim(f'{nm}: accepted', k == 'ok')
         if k == 'ok':
             w.claim(f'{nm}: same data', b.data == raw)
